@@ -34,6 +34,13 @@ def run(ctx):
                 jobs.append((k, em, None, ctx.seed, (not ctx.quick) and em == "thread", {}))
     # multi-MB items followed at once by more traffic (socket buffers fill, partial reads / writes happen)
     jobs += [(k, "thread", None, ctx.seed + 1, True, {}) for k in (kinds if not ctx.quick else ["popen", "socket", "via"])]
+    # a socket server hosted by a gevent gateway (cooperative reads and writes on the worker's side), small and multi-MB items
+    try:
+        import gevent  # noqa: F401
+
+        jobs += [("socket_gevent_host", "gevent", None, ctx.seed, False, {}), ("socket_gevent_host", "gevent", None, ctx.seed + 1, True, {})]
+    except ImportError:
+        ctx.note("gevent not installed: no gevent-hosted socket worker")
     res, ctl = tc.run_matrix(jobs, [("thread", None), ("main_thread_only", None)])
     base = res[0]
     if base["err"]:
